@@ -236,3 +236,11 @@ func kfBracketQuote(text string, off int) bool {
 }
 
 func refmodelOffset(text string, line, ch int) (int, bool) { return refmodel.OffsetOf(text, line, ch) }
+
+// kfGluedBracket is the trigger class of known finding C05-F6: the identifier is directly preceded
+// (no white space) by `]` or `)` — e.g. the end of a long comment `--[[c]]name` or `f()g()`. The
+// server extracts the expression under the cursor by scanning the text backwards and takes the
+// bracketed text for part of the expression.
+func kfGluedBracket(text string, off int) bool {
+	return off > 0 && (text[off-1] == ']' || text[off-1] == ')')
+}
